@@ -27,7 +27,10 @@ TRUSTED = ["Spec.Quad.integral as the meaning of the integral: open 3-point Newt
            "Python builtin min/max) is tied by differential testing only",
            "the frame of the public functions (gather_dimensions, mean) is not modelled in Lean: the batches "
            "band-end-points-vs-integral-spec / label-order-vs-integral-spec compare the result BY LABEL with the exact mean "
-           "(Fractions, in the harness) of the Lean Spec integrals over the reduced data dimensions; apply_weights is outside C10"]
+           "(Fractions, in the harness) of the Lean Spec integrals over the reduced data dimensions; apply_weights is outside C10",
+           "the option weights= of the tw_* functions is not modelled in Lean: batch weights-option-vs-integral-spec compares the result "
+           "with the exact mean (Fractions, in the harness) of weight x Lean Spec integral, for finite weights >= 0 (NaN / negative "
+           "weights belong to C03)"]
 ASSUMPTIONS = ["forecasts / observations / end points are multiples of 1/2 or 1/4 of small magnitude (float + - * and comparisons "
                "exact); quotients by (b-a), (d-c), 3 compared to 1e-9", "NaN end points are not generated",
                "regular batches: no coordinates (positional); batches band-end-points-vs-integral-spec / label-order-vs-integral-spec: "
@@ -59,7 +62,8 @@ MANIFEST = dict(
          "mixed with scalars, for every tw_* function with default dims, reduce_dims / preserve_dims lists and 'all' (the result keeps "
          "the band dimension, every band = exact mean of the Lean integrals for that band's end points, a weight-1 band = the "
          "unweighted score), and labelled forecasts / observations / end points in different stored orders and dimension orders, "
-         "compared by label.",
+         "compared by label; the option weights= (arrays along data dimensions or a dimension of their own) for every tw_* function and "
+         "every way of naming the kept dimensions: result = exact mean of weight x Lean integral.",
     note="Trusted: Lean kernel; propext/Classical.choice/Quot.sound; py2lean translator; SV.Fl (IEEE minus rounding, overflow, signed "
          "zero); the integral is Spec.Quad.integral = open 3-point Newton-Cotes rule on each cell of the kink-complete grid (exact "
          "for piecewise cubics) and is proved equal to Mathlib's intervalIntegral of weight x elementary score (Props/C10Bridge.lean). Modelled and only compared (not proved): _auxiliary_funcs "
@@ -81,7 +85,9 @@ RULE = ("cases (x, y, weight shape, end points, alpha, huber parameter): exhaust
         "grid, integer-valued ones also as Python int / int64 arrays); layout batches: per run every (function, way of naming the "
         "kept dimensions) with end points along a band dimension (all / mixed with scalars / with data-dimension arrays / 2-D), and "
         "every function with forecasts and observations in different stored label orders and dimension orders against scalar, band, "
-        "data-dimension (common order / own order) end points; distinct = distinct (x, y, shape, end points, parameters, "
+        "data-dimension (common order / own order) end points; weights batch: per run every (function, way of naming the kept "
+        "dimensions) with weights= along s, k, both (either dimension order) or a dimension of their own, values in {0, 1/4, .., 3}, never "
+        "constant; distinct = distinct (x, y, shape, end points, parameters, "
         "storage dtypes, layout); non-trivial = x, y not NaN and not in the malformed stream")
 
 NAN = float("nan")
@@ -1594,6 +1600,159 @@ def replay_layout(case):
     return any(f["tags"].get("defect") != LAYOUT_DEFECT for f in ctx2.failures)
 
 
+# ------------------------------------------------------------------------------------------------ weights=
+# The documented option `weights=` of the five tw_* functions: every pointwise score (the integral of threshold weight x
+# elementary score) is multiplied by the supplied weight BEFORE the mean over the reduced dimensions; a weights array
+# with a dimension the data lack ("w": several weightings at once) adds that dimension to the result.  Expected value,
+# independent of the library: per (s, k[, w]) the Lean Spec integral x the weight, exact mean (Fractions) over the
+# reduced data dimensions.  apply_weights itself (NaN / negative weights) belongs to C03: weights here are finite, >= 0.
+WT_BATCH = "weights-option-vs-integral-spec"
+WT_DIMS = ("s", "k", "w")
+WT_FORMS = [["s"], ["k"], ["s", "k"], ["k", "s"], ["w"], ["k", "w"], ["w", "s"], ["s", "k", "w"]]
+WT_VALUES = [0.0, 0.25, 0.5, 1.0, 1.5, 2.0, 3.0]
+
+
+def gen_weights_case(rng, name, mode):
+    shape = rng.choice(["rect", "trap"])
+    Sn, Kn = rng.choice([(2, 3), (3, 2), (2, 2), (1, 3), (3, 1), (3, 3)])
+    Wn = 2
+    cfg = gen_cfg(rng, shape, Sn, Kn)
+    if rng.random() < 0.15:     # weight 1 everywhere: the weighted standard score
+        n = len(cfg["ends"])
+        cfg = {"shape": shape, "ends": [-INF] * (n // 2) + [INF] * (n // 2), "dims": [()] * n}
+    huber = rng.choice(HUBERS)
+    fc, ob = gen_data(rng, cfg, Sn, Kn, nan_p=0.0, extra=[v + s * huber for v in finite_ends(cfg)[:2] for s in (-1, 1)])
+    dims = list(rng.choice(WT_FORMS))
+    shp = tuple({"s": Sn, "k": Kn, "w": Wn}[d] for d in dims)
+    vals = np.array([rng.choice(WT_VALUES) for _ in range(int(np.prod(shp)))], dtype=float)
+    if np.all(vals == vals[0]):          # never a constant weighting (a constant 1 is the absence of weights)
+        vals[rng.randrange(len(vals))] = vals[0] + 0.5
+        if len(vals) == 1:
+            vals[0] = rng.choice([0.25, 0.5, 2.0, 3.0])
+    case = {"weights_case": 1, "function": name, "cfg": dict(cfg, dims=[list(d) for d in cfg["dims"]]),
+            "fcst": fc.tolist(), "obs": ob.tolist(), "alpha": rng.choice(ALPHAS), "huber": huber,
+            "weights": {"dims": dims, "values": vals.reshape(shp).tolist()}, "mode": mode}
+    if mode == "reduce-list":
+        case["dims_arg"] = rng.choice([["s"], ["k"], ["k", "s"], ["s", "k"]])
+    elif mode == "preserve-list":
+        case["dims_arg"] = rng.choice([["s"], ["k"], ["k", "s"]])
+    return case
+
+
+def wt_cfg(case):
+    cfg = dict(case["cfg"])
+    cfg["dims"] = [tuple(d) for d in cfg["dims"]]
+    cfg["ends"] = [e if isinstance(e, list) else float(core.parse_fl(e) if isinstance(e, str) else e) for e in cfg["ends"]]
+    return cfg
+
+
+def wt_canon(case, shape):
+    """the weights broadcast to (S, K, W) (W = 1 if the weights have no dimension of their own), as exact Fractions"""
+    w = case["weights"]
+    a = np.array(w["values"], dtype=float)
+    cd = [d for d in WT_DIMS if d in w["dims"]]
+    a = np.transpose(a, [w["dims"].index(d) for d in cd])
+    sizes = {"s": shape[0], "k": shape[1], "w": a.shape[cd.index("w")] if "w" in cd else 1}
+    a = np.broadcast_to(a.reshape(tuple(sizes[d] if d in cd else 1 for d in WT_DIMS)), tuple(sizes[d] for d in WT_DIMS))
+    out = np.empty(a.shape, dtype=object)
+    out.ravel()[:] = [Fraction(float(v)) for v in a.ravel()]
+    return out, "w" in cd
+
+
+def wt_call(case, with_weights=True):
+    import scores.continuous as sc
+    cfg = wt_cfg(case)
+    name = case["function"]
+    one, pos = tw_args(cfg)
+    args = [da(case["fcst"]), da(case["obs"])]
+    if name in ("tw_quantile_score", "tw_expectile_score"):
+        args.append(float(case["alpha"]))
+    if name == "tw_huber_loss":
+        args.append(float(case["huber"]))
+    kw = lay_kwargs(case)
+    if with_weights:
+        kw["weights"] = xr.DataArray(np.array(case["weights"]["values"], dtype=float), dims=[fresh(d) for d in case["weights"]["dims"]])
+    with np.errstate(all="ignore"):
+        return getattr(sc, name)(*args, interval_where_one=one, interval_where_positive=pos, **kw)
+
+
+def wt_spec_ops(case):
+    cfg = wt_cfg(case)
+    return [op for op in spec_ops(case["fcst"], case["obs"], cfg, float(case["alpha"]), float(case["huber"]))]
+
+
+def wt_check(ctx, batch, case, spec_rows):
+    """True iff a failure was recorded"""
+    name = case["function"]
+    fc = np.asarray(case["fcst"], dtype=float)
+    E = np.empty(fc.shape, dtype=object)
+    E.ravel()[:] = [core.parse_fl(r[name]) for r in spec_rows]
+    W, has_w = wt_canon(case, fc.shape)
+    kept = lay_kept(case)
+    red = [DATA_DIMS.index(d) for d in DATA_DIMS if d not in kept]
+    exp = np.asarray(lay_mean(E[:, :, None] * W, red), dtype=object)
+    if not has_w:
+        exp = exp[..., 0]
+    exp_dims = kept + (["w"] if has_w else [])
+    cfg = wt_cfg(case)
+    tags = {"function": name, "shape": cfg["shape"], "mode": case["mode"], "option": "weights",
+            "weights_dims": "+".join(case["weights"]["dims"]), "ends": forms_of(cfg)}
+    theorem = THEOREM_OF[name].replace("rect", cfg["shape"])
+    try:
+        res = wt_call(case)
+    except Exception as ex:  # noqa: BLE001
+        ctx.fail(batch, "property", name, "exception:" + type(ex).__name__, case, observed=f"{type(ex).__name__}: {ex}"[:200],
+                 expected="values", tags=tags)
+        return True
+    if set(res.dims) != set(exp_dims):
+        ctx.fail(batch, "property", name, "weighted-result-dims", case,
+                 observed={"dims": list(res.dims), "values": np.asarray(res.values, dtype=float).tolist()},
+                 expected={"dims": exp_dims, "values": nested_map(S, exp.tolist())}, tags=tags, theorem=theorem)
+        return True
+    got = np.asarray(res.transpose(*exp_dims).values, dtype=float)
+    if got.shape != np.shape(exp):
+        ctx.fail(batch, "property", name, "weighted-result-shape", case, observed=list(got.shape), expected=list(np.shape(exp)), tags=tags)
+        return True
+    for idx in np.ndindex(*got.shape):
+        if not core.close(got[idx], exp[idx]):
+            where = dict(zip(exp_dims, idx))
+            ctx.fail(batch, "property", name, "weighted-score-differs-from-weight-times-integral", case,
+                     observed={"at": where, "value": float(got[idx])}, expected={"at": where, "value": S(exp[idx])}, tags=tags,
+                     theorem=theorem)
+            return True
+    return False
+
+
+def oracle_weights(ctx, boost):
+    """tw_*(..., weights=W) = mean over the reduced dimensions of W x (Lean Spec integral), for every function x every way of
+    naming the kept dimensions in every run; weights along s, k, both (either dimension order) or an own dimension"""
+    rng = ctx.rng
+    todo = []
+    for _ in range(ctx.n(2, 12) * (3 if boost else 1)):
+        for name in FUNCS:
+            for mode in LAYOUT_MODES:
+                todo.append(gen_weights_case(rng, name, mode))
+    ops, cuts = [], []
+    for case in todo:
+        o = wt_spec_ops(case)
+        cuts.append(len(o))
+        ops += o
+    res = core.run_driver("C10spec", ops)
+    k = 0
+    for case, n in zip(todo, cuts):
+        rows = res[k:k + n]; k += n
+        ctx.case(WT_BATCH, case)
+        ctx.tag("weights-option:" + "+".join(case["weights"]["dims"]))
+        ctx.tag("weights-mode:" + case["mode"])
+        wt_check(ctx, WT_BATCH, case, rows)
+
+
+def replay_weights(case):
+    ctx2 = core.Ctx("C10", "quick", 0)
+    rows = core.run_driver("C10spec", wt_spec_ops(case))
+    return wt_check(ctx2, "replay", case, rows)
+
+
 def oracle(ctx, boost):
     oracle_integral(ctx, boost)
     oracle_murphy(ctx, boost)
@@ -1604,6 +1763,7 @@ def oracle(ctx, boost):
     oracle_consistent_dtypes(ctx, boost)
     oracle_int_range(ctx, boost)
     oracle_layout(ctx, boost)
+    oracle_weights(ctx, boost)
 
 
 # ------------------------------------------------------------------------------------------------ replay
@@ -1613,6 +1773,8 @@ def replay(ctx, payload):
     ctx2 = core.Ctx("C10", "quick", 0)
     if case.get("layout"):      # labelled layouts / band end points
         return replay_layout(case)
+    if case.get("weights_case"):      # the weights= option
+        return replay_weights(case)
     if "x" in case and "ends" in case and "shape" in case:
         ends = [float(core.parse_fl(s)) for s in case["ends"]]
         cfg = {"shape": case["shape"], "ends": ends, "dims": [()] * len(ends), "int_forms": bool(case.get("int_forms", False))}
